@@ -68,9 +68,9 @@ def with_coindex(mt):
     return model.MT(mt.sid, mt.toks, rec(mt.root, ()))
 
 
-def check_bin(mtj, bare, marked):
+def check_bin(mtj, bare, marked, order=None):
     mt = model.MT.from_json(mtj)
-    case = {'bin': mtj, 'bare': bare, 'marked': marked}
+    case = {'bin': mtj, 'bare': bare, 'marked': marked, 'order': order}
     out = []
 
     def bad(kind, detail, what=None):
@@ -79,7 +79,7 @@ def check_bin(mtj, bare, marked):
                     'what': what or ('binarize: ' + kind)})
     arities = [len(nd[2]) for nd in model.mt_all(mt.root) if not isinstance(nd, int)]
     params = {'bare_bin_labels': True} if bare else {}
-    t = build(mt)
+    t = build(mt, child_order=order)
     try:
         if marked:
             t = transform.negra_mark_heads(t)
@@ -143,16 +143,16 @@ def ref_collapse(mt):
     return rec(mt.root), pos
 
 
-def check_col(mtj):
+def check_col(mtj, order=None):
     mt = model.MT.from_json(mtj)
-    case = {'col': mtj}
+    case = {'col': mtj, 'order': order}
     out = []
 
     def bad(kind, where, detail, what=None):
         out.append({'kind': kind, 'where': where, 'case': case,
                     'detail': '%s [input %s]' % (detail, model.mt_str(mt.root, mt.toks)),
                     'what': what or (where + ': ' + kind)})
-    t = build(mt)
+    t = build(mt, child_order=order)
     try:
         r = transform.collapse_unary_chains(t)
     except Exception as e:
@@ -203,13 +203,14 @@ def check_col(mtj):
 def check_case(case):
     with quiet():
         if 'bin' in case:
-            return check_bin(case['bin'], case['bare'], case['marked'])
-        return check_col(case['col'])
+            return check_bin(case['bin'], case['bare'], case['marked'], case.get('order'))
+        return check_col(case['col'], case.get('order'))
 
 
 def run_chunk(chunk):
     res = Result()
     with quiet():
+        idx = 0
         if chunk['kind'] == 'bin':
             for sh, k in sweep.iter_shapes(chunk):
                 big = model.max_arity_of(sh) > 2
@@ -219,7 +220,8 @@ def run_chunk(chunk):
                     for mt in (base, with_coindex(base)):
                         j = mt.to_json()
                         for bare in (False, True):
-                            vs = check_bin(j, bare, True)
+                            idx += 1
+                            vs = check_bin(j, bare, True, None if idx % 2 else 'rev')
                             res.evals += 1
                             res.nontrivial += 1 if big else 0
                             res.outcome((mt.key(), bare, len(vs)))
@@ -237,12 +239,13 @@ def run_chunk(chunk):
         else:
             for sh, k in sweep.iter_shapes(chunk):
                 mt = model.simple_mt(sh, sid=4)
-                vs = check_col(mt.to_json())
-                res.evals += 1
-                res.nontrivial += 1 if k > 0 or len(sh) == 1 else 0
-                res.outcome((model.shape_str(sh), len(vs)))
-                for v in vs:
-                    res.violation(v['kind'], v['where'], v['case'], v['detail'], v['what'])
+                for order in (None, 'rev'):
+                    vs = check_col(mt.to_json(), order)
+                    res.evals += 1
+                    res.nontrivial += 1 if k > 0 or len(sh) == 1 else 0
+                    res.outcome((model.shape_str(sh), order, len(vs)))
+                    for v in vs:
+                        res.violation(v['kind'], v['where'], v['case'], v['detail'], v['what'])
                 if k:
                     res.sample({'collapse/uncollapse': model.mt_str(mt.root)})
     return res
